@@ -30,6 +30,18 @@ class Crash(Exception):
         self.run, self.func, self.text = run, func, text
 
 
+def _repo_race(out):
+    """First repository function named in a data race report of the race detector (None if there is no report)."""
+    i = out.find("WARNING: DATA RACE")
+    if i < 0:
+        return None
+    for ln in out[i:].splitlines()[1:40]:
+        ln = ln.strip()
+        if ln.startswith("github.com/cosi-project/runtime/"):
+            return ln.split("(")[0] if ".(*" not in ln else ln.rsplit("(", 1)[0]
+    return "unknown"
+
+
 def _repo_panic(out):
     """Returns the function of the first frame of the panicking goroutine if that frame is repository code."""
     i = out.find("\npanic: ")
@@ -349,7 +361,7 @@ def harness_prepare():
         raise Infra("cannot copy go.sum: %s" % ex)
 
 
-def go_build_test(ctx, pkg, tags="verif"):
+def go_build_test(ctx, pkg, tags="verif", race=False):
     """Compile the test binary of harness package pkg against /repo's working tree."""
     hdir = HARNESS
     if os.path.realpath(REPO) != "/repo":
@@ -362,8 +374,11 @@ def go_build_test(ctx, pkg, tags="verif"):
             shutil.copy(os.path.join(REPO, "go.sum"), os.path.join(hdir, "go.sum"))
     else:
         harness_prepare()
-    out = os.path.join(ctx.sub("bin"), pkg.replace("/", "_") + ".test")
+    race = race or os.environ.get("VERIF_RACE") == "1"
+    out = os.path.join(ctx.sub("bin"), pkg.replace("/", "_") + (".race" if race else "") + ".test")
     cmd = [GO, "test", "-c", "-tags", tags, "-o", out, "./" + pkg]
+    if race:
+        cmd[3:3] = ["-race"]
     t = time.time()
     p = subprocess.run(cmd, cwd=hdir, env=go_env(), stdout=subprocess.PIPE, stderr=subprocess.STDOUT, text=True)
     if p.returncode != 0 or not os.path.exists(out):
@@ -383,11 +398,26 @@ def go_run(ctx, binary, run, env, *, timeout=600, cwd=None, allow_fail=False, ex
     p = subprocess.run(cmd, cwd=cwd or ctx.scratch, env=e, stdout=subprocess.PIPE, stderr=subprocess.STDOUT, text=True)
     ctx.log("go %s rc=%d %.1fs" % (run, p.returncode, time.time() - t))
     if p.returncode != 0 and not allow_fail:
+        rfunc = _repo_race(p.stdout)
+        if rfunc == "unknown":
+            raise Infra("driver %s: data race reported without a frame of the code under test (harness bug):\n%s" % (run, p.stdout[p.stdout.find("WARNING: DATA RACE"):][:3000]))
+        if rfunc:
+            raise Crash(run, "DATA RACE in " + rfunc, p.stdout[p.stdout.find("WARNING: DATA RACE"):][:6000])
         func = _repo_panic(p.stdout)
         if func:
             raise Crash(run, func, p.stdout[p.stdout.find("panic: "):][:6000])
         raise Infra("driver %s failed rc=%d:\n%s" % (run, p.returncode, p.stdout[-6000:]))
     return p.returncode, p.stdout
+
+
+def race_stage(ctx, pkg, run, env, timeout=3000):
+    """Thorough-tier extra: the same driver once more, built with the Go race detector. A data race report that names a
+    function of the code under test is reported as a violation (vlib.Crash); the driver's output is not judged again."""
+    binary = go_build_test(ctx, pkg, race=True)
+    e = dict(env)
+    e["VERIF_OUT"] = e.get("VERIF_OUT", os.path.join(ctx.scratch, "race")) + ".race"
+    go_run(ctx, binary, run, e, timeout=timeout)
+    ctx.cov.setdefault("race_detector_runs", []).append("%s/%s" % (pkg, run))
 
 
 # ---------------------------------------------------------------------------------------------
